@@ -1356,6 +1356,24 @@ SHARED_VALUES = ['4px', '0', '1em', '10%', '4px 8px', '1px 2px 3px', '1px 2px 3p
 SHARED_PRE = ('padding:7px;margin:5px;border:2px dotted green;color:green;width:150px;flex:2 2 20px;columns:3;'
               'font:bold 14px/20px weasyprint;border-radius:3px;text-decoration:overline;list-style:square;'
               'background:yellow;outline:1px dashed;text-indent:2px;letter-spacing:1px;gap:2px;text-align:right')
+# values that are likely valid where the custom property is used (the rest of the time: any of SHARED_VALUES)
+SHARED_TYPED = {
+    '--m': ['4px', '0', '1em', '30px', '10%', '-1px', 'auto'], '--p': ['4px', '0', '1em', '4px 8px', '1px 2px 3px', '10%'],
+    '--w': ['4px', 'thin', 'medium', '0', '1em'], '--s': ['solid', 'dotted', 'none', 'double'],
+    '--c': ['red', '#fff', 'blue', 'rgb(1, 2, 3)'], '--f': ['2', '1.5', '0', '3', 'none', 'auto', '2 3'],
+    '--n': ['2', '3', '50px', 'auto', '50px 2'], '--fs': ['12px', 'large', '1.5em', '80%'], '--lh': ['1.5', '15px', 'normal'],
+    '--u': ['30px', '50%', 'auto', '1em'], '--r': ['4px', '4px 8px', '10%'], '--t': ['wavy', 'red', 'dotted', '2px'],
+    '--l': ['square', 'none', 'decimal'], '--d': ['block', 'inline-block', 'none', 'flex'], '--fw': ['bold', '100', 'normal'],
+    '--ta': ['left', 'center', 'right', 'justify'], '--fl': ['left', 'right', 'none'],
+}
+
+
+def shared_value(rng, name):
+    if rng.random() < 0.6 and name in SHARED_TYPED:
+        return rng.choice(SHARED_TYPED[name])
+    return rng.choice(SHARED_VALUES)
+
+
 VAR_RE = re.compile(r'var\(\s*(--[\w-]+)\s*(?:,\s*([^()]*?)\s*)?\)')
 
 
@@ -1382,12 +1400,12 @@ def gen_shared_values(rng, names):
     for n in names:
         r = rng.random()
         if r < 0.62:
-            own[n] = rng.choice(SHARED_VALUES)
+            own[n] = shared_value(rng, n)
         elif r < 0.80:
-            parent[n] = rng.choice(SHARED_VALUES)
+            parent[n] = shared_value(rng, n)
         elif r < 0.88:
-            own[n] = rng.choice(SHARED_VALUES)
-            parent[n] = rng.choice(SHARED_VALUES)
+            own[n] = shared_value(rng, n)
+            parent[n] = shared_value(rng, n)
         # else undefined
     return own, parent
 
@@ -1485,7 +1503,7 @@ def gen_pending_case(rng):
         env = {}
         for nm in names:
             if rng.random() < 0.8:
-                env[nm] = rng.choice(SHARED_VALUES)
+                env[nm] = shared_value(rng, nm)
         calls.append({'env': env, 'key': rng.randrange(12)})
     if rng.random() < 0.4:
         calls.append(dict(calls[0]))          # the first call again, after the others
